@@ -9,6 +9,7 @@ and every byte is delivered; with latency control off too_full never becomes tru
 the server starts with every buffer size the option parser accepts (0 included).
 """
 import io
+import os
 import struct
 import sys
 
@@ -478,12 +479,107 @@ def server_loop_keeps_answering(ctx, only=None):
             break
 
 
+def ping_behind_a_failing_frame(ctx, only=None):
+    """'Every such request is eventually answered', at the frame level: the peer's rttest PING arrives in the same read
+    as, and right behind, a frame whose handling fails at the operating-system boundary of ONE flow (a UDP datagram
+    whose sendto() is refused).  Whatever happens to that datagram, every complete frame that has arrived is handled in
+    that pass — the PING among them: a PING left in the input buffer is answered only when the peer sends more, and the
+    peer, paused, sends nothing.  Real server.main wiring, real ssnet.runonce and Mux.handle; only the datagram socket
+    is scripted."""
+    import errno as _errno
+    import sshuttle.server as server
+    import sshuttle.ssnet as ssnet
+
+    def frame(chan, cmd, data):
+        return struct.pack('!ccHHH', b'S', b'S', chan, cmd, len(data)) + data
+
+    cases = [(e, before, after) for e in (_errno.EACCES, _errno.ENETUNREACH, _errno.EINVAL, _errno.EMSGSIZE, _errno.EPERM)
+             for before, after in ((0, 0), (2, 1))]
+    for (eno, before, after) in cases:
+        if only is not None and only != [eno, before, after]:
+            continue
+        ctx.count()
+        ctx.hist('directed:ping-behind-failing-frame')
+        ctx.mark(('ping-behind-failing-frame', eno, before, after), True)
+        t = ts.RealTunnel(bufsize=32768)
+        saved_socket = server.socket
+        what = None
+
+        class RefusingUdp:
+            def __init__(self, *a):
+                pass
+
+            def sendto(self, data, dst):
+                raise OSError(eno, 'scripted: ' + os.strerror(eno))
+
+            def fileno(self):
+                return 4711
+
+            def close(self):
+                pass
+
+            def setsockopt(self, *a):
+                pass
+
+            def bind(self, *a):
+                pass
+
+        class SockMod:
+            def __getattr__(self, n):
+                return getattr(saved_socket, n)
+
+            def socket(self, family, kind=saved_socket.SOCK_STREAM, *a):
+                if kind == saved_socket.SOCK_DGRAM:
+                    return RefusingUdp()
+                return saved_socket.socket(family, kind, *a)
+        try:
+            server.socket = SockMod()
+            t.smux.got_udp_open = t.real_got_udp_open
+
+            def one_pass(frames):
+                t.smux.rfile.data = b''.join(frames)
+                t.ready = (([t.smux.rfile] if frames else []), [t.smux.wfile], [])
+                try:
+                    ssnet.runonce(t.shandlers, t.smux)
+                finally:
+                    t.smux.rfile.data = b''
+                    t.ready = ([], [], [])
+            try:
+                one_pass(list(t.cmux.outbuf))
+                del t.cmux.outbuf[:]
+                n0 = len(t.smux.outbuf)
+                burst = [frame(7, ssnet.CMD_UDP_OPEN, b'2')]
+                burst += [frame(7, ssnet.CMD_UDP_DATA, b'198.51.100.9,9,ok-%d' % i) for i in range(before)]
+                burst += [frame(7, ssnet.CMD_UDP_DATA, b'255.255.255.255,9,refused')]
+                burst += [frame(0, ssnet.CMD_PING, b'rttest')]
+                burst += [frame(7, ssnet.CMD_UDP_DATA, b'198.51.100.9,9,later-%d' % i) for i in range(after)]
+                one_pass(burst)
+                one_pass([])            # an idle pass: the peer, paused, sends nothing more
+                pongs = [p for p in t.smux.outbuf[n0:]
+                         if struct.unpack('!ccHHH', p[:8])[3] == ssnet.CMD_PONG and p[8:] == b'rttest']
+                if len(pongs) != 1:
+                    what = ('%d PONG(s) for the rttest PING that arrived behind a datagram whose sendto() failed with %s; '
+                            '%d byte(s) of complete frames left unhandled in the input buffer'
+                            % (len(pongs), _errno.errorcode.get(eno, eno), len(t.smux.inbuf)))
+            except Exception as e:  # noqa
+                what = 'server loop raised %s: %s' % (type(e).__name__, e)
+        finally:
+            server.socket = saved_socket
+            t.close()
+        if what:
+            ctx.violation('C09:server-loop:ping-behind-a-failing-frame-not-answered',
+                          case=dict(kind='ping-behind-failing-frame', errno=eno, before=before, after=after),
+                          expected='the rttest PING is answered in the pass in which it arrived', observed=what)
+            break
+
+
 def run(ctx):
     rng = ctx.rng
     tg.set_verbosity_seed(ctx.seed)
     server_start(ctx)
     loop_wiring(ctx)
     server_loop_keeps_answering(ctx)
+    ping_behind_a_failing_frame(ctx)
     all_in, all_out = [], []
     for tag, fn in ([('bound-%d' % b, (lambda b=b: queued_payload_bound(ctx, rng, b))) for b in (2048, 5000)] +
                     [('bound-taken-%d' % b, (lambda b=b: queued_payload_bound(ctx, rng, b, True))) for b in (2048, 5000)] +
@@ -574,6 +670,11 @@ def replay(ctx, rep):
         server_loop_keeps_answering(c2, only=case['size'])
         hit = [v for v in c2.violations if v['key'] == rep['key']]
         return bool(hit), (hit[0]['observed'] if hit else 'the PING after the burst is answered')
+    if case.get('kind') == 'ping-behind-failing-frame':
+        c2 = type(ctx)(ctx.prop_id, 'quick', 0)
+        ping_behind_a_failing_frame(c2, only=[case['errno'], case['before'], case['after']])
+        hit = [v for v in c2.violations if v['key'] == rep['key']]
+        return bool(hit), (hit[0]['observed'] if hit else 'the PING behind the failing datagram is answered in the same pass')
     if rep['key'].startswith(('C09:bound:queued', 'C09:ping:budget')):
         return replay_bound(case)
     if ':work:' in rep.get('key', ''):
